@@ -328,6 +328,18 @@ func stubRespond(req *dns.Msg) *dns.Msg {
 		o.SetUDPSize(1232)
 		o.Option = append(o.Option, &dns.EDNS0_EDE{InfoCode: dns.ExtendedErrorCodeStaleAnswer, ExtraText: "upstream says stale"})
 		m.Extra = append(m.Extra, o)
+	case "cnb":
+		// alias onto a terminal that does not fit a 512-octet buffer: the composed reply
+		// passes the walk and fails the size gate
+		m.Answer = append(m.Answer, &dns.CNAME{Hdr: dns.RR_Header{Name: owner, Rrtype: dns.TypeCNAME, Class: q.Qclass, Ttl: 200}, Target: under("bgt", restOf(q.Name))})
+	case "bgt":
+		if q.Qtype == dns.TypeTXT {
+			for i := 0; i < 12; i++ {
+				m.Answer = append(m.Answer, &dns.TXT{Hdr: dns.RR_Header{Name: owner, Rrtype: dns.TypeTXT, Class: q.Qclass, Ttl: 300}, Txt: []string{fmt.Sprintf("%02d-%s", i, strings.Repeat("z", 50))}})
+			}
+		} else {
+			addr()
+		}
 	case "big":
 		for i := 0; i < 30; i++ {
 			m.Answer = append(m.Answer, &dns.TXT{Hdr: dns.RR_Header{Name: owner, Rrtype: dns.TypeTXT, Class: q.Qclass, Ttl: 300}, Txt: []string{fmt.Sprintf("%02d-%s", i, strings.Repeat("x", 50))}})
